@@ -43,6 +43,10 @@ def run(ctx) -> None:
     check_map(ctx)
     check_snapshot(ctx)
     check_net(ctx)
+    from . import solform
+
+    ctx.rule("C04.labels", "finite evaluation: get_solution puts every value under the identifier of its own reaction / metabolite, whatever the order of the request", floor=1)
+    ctx.guard(solform.check_get_solution, ctx, "C04.labels")
     # the optimum that is reported is the optimum of the problem the solver holds: that this is the model's
     # flux-balance problem after every edit is C01 - its whole rule set is a necessary condition here (shared)
     c01.run(ctx)
